@@ -976,6 +976,12 @@ class GCodeBuilder(GCodeCore):
             for hook in self._hooks:
                 params = hook(origin, target, params, self.state)
 
+                # A hook may hand back a plain mapping: its words are
+                # case-insensitive like any others
+
+                if not isinstance(params, ParamsDict):
+                    params = ParamsDict(params)
+
         self._track_move_params(params)
         return super()._prepare_move(point, params, comment)
 
